@@ -24,9 +24,14 @@ pub struct OpDef {
     pub name: String,
     pub pre: usize,
     pub f: Arc<OpFn>,
+    /// 0 = wallet over the `tiny` universe; 1 = wallet over the C08 universe (its network upgrade
+    /// heights differ, so a wallet handle created with the matching parameters is used)
+    pub env: u8,
 }
 
 pub struct Fixture {
+    /// the C08 environment (universe with real pending transactions built once)
+    pub env8: Arc<crate::c08::chain::Env>,
     pub u: Universe,
     pub pre_names: Vec<&'static str>,
     pub pres: Vec<Snapshot>,
@@ -89,11 +94,18 @@ impl Fixture {
         mk("locked", vec![Op::Tip { h: FIRST + 1 }, Op::Scan { from: FIRST, to: FIRST + 1 }], &|w| {
             w.db.lock_outputs(&lock_refs, OWNER_X, BlockHeight::from_u32(FIRST + 30)).expect("fixture lock");
         });
+        // 5: full, with the Sapling checkpoints at or below FIRST+2 removed: the documented state of
+        // a pool whose rescan has so far only reached blocks near the tip (S0..S3 scanned, no stretch, so
+        // the pruning floor lies below the target; valid, but a rewind to
+        // FIRST+2 must be refused: WouldDestroyWitnesses). Constructed by deleting rows.
+        mk("s0-s3-sapling-checkpoints-above-only", vec![Op::Tip { h: FIRST + 4 }, Op::Scan { from: FIRST, to: FIRST + 4 }], &|w| {
+            w.db.conn().execute("DELETE FROM sapling_tree_checkpoints WHERE checkpoint_id <= ?", [FIRST + 2]).expect("delete checkpoints");
+        });
         // 4: scanned out of order with a gap (S2..S3 scanned, S0..S1 not), tip known
         mk("gap", vec![Op::Tip { h: ctip }, Op::Scan { from: FIRST + 2, to: ctip }], &|_| {});
 
         let mut ops: Vec<OpDef> = vec![];
-        let mut add = |name: &str, pre: usize, f: Arc<OpFn>| ops.push(OpDef { name: name.to_string(), pre, f });
+        let mut add = |name: &str, pre: usize, f: Arc<OpFn>| ops.push(OpDef { name: name.to_string(), pre, f, env: 0 });
 
         // --- block storage
         add("scan1@fresh", 0, Arc::new(|w, fx| scan(w, &fx.u, 0, FIRST, FIRST)));
@@ -101,11 +113,11 @@ impl Fixture {
         add("scan1@mid", 1, Arc::new(|w, fx| scan(w, &fx.u, 0, FIRST + 2, FIRST + 2)));
         add("scan_rest@mid", 1, Arc::new(|w, fx| scan(w, &fx.u, 0, FIRST + 2, fx.u.chains[0].tip())));
         add("rescan@full", 2, Arc::new(|w, fx| scan(w, &fx.u, 0, FIRST + 1, FIRST + 2)));
-        add("fill_gap@gap", 4, Arc::new(|w, fx| scan(w, &fx.u, 0, FIRST, FIRST + 1)));
+        add("fill_gap@gap", 5, Arc::new(|w, fx| scan(w, &fx.u, 0, FIRST, FIRST + 1)));
         // --- chain tip / queue
         add("tip@fresh", 0, Arc::new(|w, _| e(w.db.update_chain_tip(BlockHeight::from_u32(FIRST + 4))).map(|_| String::new())));
         add("tip_beyond@mid", 1, Arc::new(|w, _| e(w.db.update_chain_tip(BlockHeight::from_u32(FIRST + 250))).map(|_| String::new())));
-        add("prune_queue@gap", 4, Arc::new(|w, _| e(w.db.prune_scan_queue_below(BlockHeight::from_u32(FIRST + 2), Some(ScanPriority::ChainTip))).map(|n| n.to_string())));
+        add("prune_queue@gap", 5, Arc::new(|w, _| e(w.db.prune_scan_queue_below(BlockHeight::from_u32(FIRST + 2), Some(ScanPriority::ChainTip))).map(|n| n.to_string())));
         // --- truncation / rewind
         add("truncate@mid", 1, Arc::new(|w, _| e(w.db.truncate_to_height(BlockHeight::from_u32(FIRST))).map(|h| format!("{h:?}"))));
         add("truncate@full", 2, Arc::new(|w, _| e(w.db.truncate_to_height(BlockHeight::from_u32(FIRST + 1))).map(|h| format!("{h:?}"))));
@@ -119,6 +131,14 @@ impl Fixture {
             2,
             Arc::new(|w, fx| e(w.db.rewind_to_chain_state(fx.u.genesis.clone(), HashSet::new())).map(|_| String::new())),
         );
+        // a rewind the wallet must refuse after it has already trimmed the queue and un-mined
+        // transactions inside its transaction (no checkpoint at the target, checkpoints on both sides)
+        add(
+            "rewind_refused@sapling-checkpoints-above-only",
+            4,
+            Arc::new(|w, fx| e(w.db.rewind_to_chain_state(fx.u.chains[0].blocks[&(FIRST + 2)].state_after.clone(), HashSet::new())).map(|_| String::new())),
+        );
+        add("truncate_refused@gap", 5, Arc::new(|w, _| e(w.db.truncate_to_height(BlockHeight::from_u32(FIRST - 1))).map(|h| format!("{h:?}"))));
         // --- accounts
         add(
             "create_account@fresh",
@@ -233,8 +253,72 @@ impl Fixture {
             pre_names.push(Box::leak(format!("mid+{}", mo.name).into_boxed_str()));
             pres.push(db::snapshot(w.db.conn()));
             let f = mo.f.clone();
-            ops.push(OpDef { name: mo.name.clone(), pre: pres.len() - 1, f: Arc::new(move |w, fx| f(w, &fx.u)) });
+            ops.push(OpDef { name: mo.name.clone(), pre: pres.len() - 1, f: Arc::new(move |w, fx| f(w, &fx.u)), env: 0 });
         }
-        Fixture { u, pre_names, pres, ops }
+        // --- transaction storage, on the C08 universe (real Sapling transactions built once with the
+        //     repository's proposal + builder path, mock provers)
+        let env8 = Arc::new(crate::c08::chain::Env::build().expect("C08 environment"));
+        {
+            use crate::c08::{chain::Env, uni};
+            use zcash_client_backend::data_api::WalletRead;
+            let restore8 = |snap: &Snapshot| {
+                let mut w = db::new_wallet(&env8.u, uni::RETENTION, false);
+                db::restore(w.db.conn_mut(), snap);
+                w.refresh_accounts();
+                w
+            };
+            // pre-state A: everything scanned, nothing pending
+            pre_names.push("c08-full");
+            pres.push(db::snapshot(restore8(&env8.starts[0].1).db.conn()));
+            let pre_a = pres.len() - 1;
+            // pre-state B: pending transaction 0 stored
+            let mut wb = restore8(&env8.starts[0].1);
+            env8.store_pending(&mut wb, 0).expect("store pending 0");
+            pre_names.push("c08-full+pending0");
+            pres.push(db::snapshot(wb.db.conn()));
+            let pre_b = pres.len() - 1;
+            let mut add8 = |name: &str, pre: usize, f: Arc<OpFn>| ops.push(OpDef { name: name.to_string(), pre, f, env: 1 });
+            add8("store_sent_p0@c08-full", pre_a, Arc::new(|w, fx| fx.env8.store_pending(w, 0).map(|_| String::new())));
+            add8("store_sent_p1@c08-pending0", pre_b, Arc::new(|w, fx| fx.env8.store_pending(w, 1).map(|_| String::new())));
+            add8("store_sent_p0_again@c08-pending0", pre_b, Arc::new(|w, fx| fx.env8.store_pending(w, 0).map(|_| String::new())));
+            let decrypted = |w: &mut Wallet, env: &Env, p: usize, mined: Option<u32>| -> Result<String, String> {
+                let ufvks = e(w.db.get_unified_full_viewing_keys())?;
+                let d = zcash_client_backend::decrypt_transaction(&env.u.network, mined.map(BlockHeight::from_u32), Some(BlockHeight::from_u32(uni::T0)), &env.pend[p].tx, &ufvks);
+                e(w.db.store_decrypted_tx(d)).map(|_| String::new())
+            };
+            add8("store_decrypted_p0_unmined@c08-full", pre_a, Arc::new(move |w, fx| decrypted(w, &fx.env8, 0, None)));
+            add8("store_decrypted_p1_unmined@c08-pending0", pre_b, Arc::new(move |w, fx| decrypted(w, &fx.env8, 1, None)));
+            add8("store_decrypted_p0_known@c08-pending0", pre_b, Arc::new(move |w, fx| decrypted(w, &fx.env8, 0, None)));
+            add8(
+                "tx_status_not_recognized@c08-pending0",
+                pre_b,
+                Arc::new(|w, fx| e(w.db.set_transaction_status(TxId::from_bytes(fx.env8.pend[0].txid), TransactionStatus::TxidNotRecognized)).map(|_| String::new())),
+            );
+            add8(
+                "tx_status_mined@c08-pending0",
+                pre_b,
+                Arc::new(|w, fx| e(w.db.set_transaction_status(TxId::from_bytes(fx.env8.pend[0].txid), TransactionStatus::Mined(BlockHeight::from_u32(uni::T0)))).map(|_| String::new())),
+            );
+            add8(
+                "put_utxo@c08-full",
+                pre_a,
+                Arc::new(|w, fx| {
+                    use zcash_client_backend::wallet::WalletTransparentOutput;
+                    use zcash_transparent::bundle::{OutPoint, TxOut};
+                    use zcash_transparent::keys::TransparentKeyScope;
+                    let out = WalletTransparentOutput::from_parts(
+                        OutPoint::new([0xc2; 32], 1),
+                        TxOut::new(zcash_protocol::value::Zatoshis::from_u64(33_000).unwrap(), fx.env8.taddr_a.script().into()),
+                        Some(BlockHeight::from_u32(uni::F + 5)),
+                        Some(w.acct_a),
+                        Some(TransparentKeyScope::EXTERNAL),
+                        None,
+                    )
+                    .expect("p2pkh output");
+                    e(w.db.put_received_transparent_utxo(&out)).map(|_| String::new())
+                }),
+            );
+        }
+        Fixture { env8, u, pre_names, pres, ops }
     }
 }
